@@ -10,14 +10,19 @@ package main
 // disconnected), some keep issuing NOOP while the teardown runs; then RemoveUser and/or Server.Close
 // under a watchdog. Must hold (theorem teardown_completes: its assumptions are met here): the call
 // returns; afterwards the goroutine count is back at the baseline taken before gluon.New.
-// Scenario `ctxcancel`: as above with one selected session, but the context given to Server.Serve is
-// cancelled first (theorem teardown_ctxcancel_hang_witness: removeState fails before
-// statesWG.Done()); a Close that does not return is reported with a replay.
+// Scenario `ctxcancel` (regression for the hang repaired by 630a898): as above with one selected session,
+// but the context given to Server.Serve is cancelled first, so the DB read and the DB write of
+// removeState fail. Close must return (theorem teardown_ctxcancel_now_completes; a hang is reported as
+// `c19teardown ctxcancel-hang`). What is still wrong: removeState returns on the write error before
+// state.Close(), the state's update-queue goroutine is left (theorem
+// teardown_writefail_unclosed_state_witness): reported as `c19teardown #13d`.
 // Scenario `snaprace` (only with -snaprace, meant for the -race build, see o_c19race.go): sessions A and
 // B select the same mailbox; B keeps deleting+expunging and logging out while A keeps issuing
 // commands: removeState(B) reads A's snapshot (other.HasMessage) from B's goroutine (finding #13b).
-// Scenario `errch` (report only): three unauthenticated sessions, Serve context cancelled, nobody
-// reads GetErrorCh: the serveErrCh consumer goroutine survives Server.Close (#13a at server.go).
+// Scenario `errch`: three unauthenticated sessions, Serve context cancelled, nobody reads GetErrorCh:
+// the serveErrCh consumer goroutine survives Server.Close, which uses plain QueuedChannel.Close
+// (fact serverErrChDiscards = some false + theorem queue_close_blocks_without_reader): reported as
+// `c19teardown #13a-errch`.
 
 import (
 	"bufio"
@@ -113,7 +118,7 @@ func tdTopFrames() string {
 				break
 			}
 		}
-		if i := strings.Index(frame, "("); i > 0 {
+		if i := strings.LastIndex(frame, "("); i > 0 {
 			frame = frame[:i]
 		}
 		counts[frame]++
@@ -394,7 +399,7 @@ func runOracleTeardown(args []string) int {
 		}
 		res.Stats[fmt.Sprintf("%s.returned=%v", sc.kind, o.returned)]++
 		if len(res.Samples) < 3 {
-			res.Samples = append(res.Samples, map[string]any{"oracle": "c19teardown", "scenario": sc.String(), "returned": o.returned, "goroutines_after": o.goroutines, "baseline": o.baseline})
+			res.Samples = append(res.Samples, map[string]any{"oracle": "c19teardown", "scenario": sc.String(), "returned": o.returned, "goroutines_after": o.goroutines, "baseline": o.baseline, "left": o.leftover})
 		}
 		replayText := func(what string) string {
 			return fmt.Sprintf("oracle c19teardown\n# %s\n# goroutines blocked / left (count x first gluon frame): %s\n# replay: ./check C19 --replay <this file>\n%s\n", what, o.leftover, sc.String())
@@ -402,15 +407,21 @@ func runOracleTeardown(args []string) int {
 		switch {
 		case !o.returned && sc.kind == "ctxcancel":
 			res.DistinctNontrivial++
-			what := "Server.Close does not return after the context passed to Server.Serve was cancelled while a logged-in session existed: session.done -> user.removeState returns `context canceled` from its first DB read, before delete(user.states)/statesWG.Done(); user.close then waits in statesWG.Wait() for ever, holding usersLock (theorem teardown_ctxcancel_hang_witness)"
+			what := "REGRESSION of 630a898: Server.Close does not return after the context passed to Server.Serve was cancelled while a logged-in session existed (removeState must reach statesWG.Done() even if its DB read fails; theorem teardown_ctxcancel_now_completes)"
 			res.Violations = append(res.Violations, oracleViolation{Desc: "c19teardown ctxcancel-hang: " + what, Replay: writeReplay(*replayDir, "C19-c19teardown-ctxcancel.txt", replayText(what))})
 		case !o.returned:
 			what := "RemoveUser/Server.Close did not return within 20 s although every session observes Done and no context was cancelled (assumptions of teardown_completes are met)"
 			res.Violations = append(res.Violations, oracleViolation{Desc: "c19teardown hang: " + what, Replay: writeReplay(*replayDir, fmt.Sprintf("C19-c19teardown-hang-%d.txt", *seed), replayText(what))})
+		case o.leftover != "" && sc.kind == "ctxcancel":
+			res.DistinctNontrivial++
+			res.Stats["ctxcancel.state-not-closed"]++
+			what := "Server.Close returned, but a goroutine is left: with the Serve context cancelled the DB write in user.removeState fails (`context canceled`) and removeState returns the error before state.Close(), so the state's update queue is never closed and its consumer goroutine sleeps in QueuedChannel.pop for ever (theorem teardown_writefail_unclosed_state_witness)"
+			res.Violations = append(res.Violations, oracleViolation{Desc: "c19teardown #13d: " + what, Replay: writeReplay(*replayDir, "C19-c19teardown-13d.txt", replayText(what))})
 		case o.leftover != "" && sc.kind == "errch":
-			// #13a at a second site; reported, not flagged
+			res.DistinctNontrivial++
 			res.Stats["errch.consumer-goroutine-left"]++
-			res.Samples = append(res.Samples, map[string]any{"oracle": "c19teardown", "finding": "#13a second site (report only): Server.Close -> serveErrCh.Close() leaves the server-err-ch consumer goroutine when session errors are queued and GetErrorCh is not read", "left": o.leftover})
+			what := "Server.Close returned, but the consumer goroutine of the server-err-ch queue is left: three sessions ended with `context canceled`, nobody reads Server.GetErrorCh, and Server.Close uses plain serveErrCh.Close() (fact serverErrChDiscards = some false; theorem queue_close_blocks_without_reader, buffer 1)"
+			res.Violations = append(res.Violations, oracleViolation{Desc: "c19teardown #13a-errch: " + what, Replay: writeReplay(*replayDir, "C19-c19teardown-13a-errch.txt", replayText(what))})
 		case o.leftover != "" && sc.kind == "teardown":
 			what := fmt.Sprintf("goroutines left behind after Server.Close returned: baseline %d, now %d", o.baseline, o.goroutines)
 			res.Violations = append(res.Violations, oracleViolation{Desc: "c19teardown leak: " + what, Replay: writeReplay(*replayDir, fmt.Sprintf("C19-c19teardown-leak-%d.txt", *seed), replayText(what))})
